@@ -55,6 +55,10 @@ type failure struct {
 	Scenario string         `json:"scenario"`
 	Msg      string         `json:"msg"`
 	Round    map[string]any `json:"round"`
+	// deadlock only: the calls that never returned, the goroutine stacks (runtime.Stack(all), library goroutines) and the full dump's file
+	Outstanding []string `json:"outstanding,omitempty"`
+	Stacks      string   `json:"goroutine_stacks,omitempty"`
+	StacksFile  string   `json:"goroutine_stacks_file,omitempty"`
 }
 
 type result struct {
@@ -214,6 +218,8 @@ func runRound(c cfg, sample bool) {
 	F := func(kind, class, msg string) {
 		fail(failure{Kind: kind, Class: class, Scenario: c.Scenario, Msg: msg, Round: rm})
 	}
+	beginRound(c.Scenario, rm)
+	trMain := newTracker("main goroutine")
 	if sweepersAlive() > 0 {
 		res.SweeperSeen++
 	}
@@ -313,6 +319,7 @@ func runRound(c cfg, sample bool) {
 	for w := 1; w <= W; w++ {
 		wg.Add(1)
 		readerSeen[nAux+w] = map[seenKey]int{}
+		tr := newTracker(fmt.Sprintf("writer %d", w))
 		go func(w int) {
 			defer wg.Done()
 			seq := map[int]int{}
@@ -327,18 +334,19 @@ func runRound(c cfg, sample bool) {
 						seq[o.key]++
 						v := mkval(o.key, w, seq[o.key])
 						t0 := now()
-						cache.Set(o.key, v)
+						tr.do("Set", o.key, func() { cache.Set(o.key, v) })
 						t1 := now()
 						logs[w] = append(logs[w], opRec{o.key, w, false, v, t0, t1})
 						last[o.key] = v
 					case 'd':
 						t0 := now()
-						cache.Delete(o.key)
+						tr.do("Delete", o.key, func() { cache.Delete(o.key) })
 						t1 := now()
 						logs[w] = append(logs[w], opRec{o.key, w, true, 0, t0, t1})
 						last[o.key] = 0
 					case 'g':
-						v := cache.Get(o.key)
+						var v int
+						tr.do("Get", o.key, func() { v = cache.Get(o.key) })
 						atomic.AddInt64(&nReads, 1)
 						if v != 0 {
 							if k, _, _ := decode(v); k != o.key {
@@ -360,6 +368,7 @@ func runRound(c cfg, sample bool) {
 		wgAux.Add(1)
 		readerSeen[r] = map[seenKey]int{}
 		rr := rand.New(rand.NewSource(rng.Int63()))
+		tr := newTracker(fmt.Sprintf("reader %d", r))
 		go func(r int, rr *rand.Rand) {
 			defer wgAux.Done()
 			seenM := readerSeen[r]
@@ -370,13 +379,17 @@ func runRound(c cfg, sample bool) {
 					k := allKeys[rr.Intn(len(allKeys))]
 					switch rr.Intn(12) {
 					case 0:
-						for _, kk := range cache.Keys() {
+						var ks []int
+						tr.do("Keys", 0, func() { ks = cache.Keys() })
+						for _, kk := range ks {
 							if !universe[kk] {
 								F("view", "", fmt.Sprintf("Keys() returned %d, which nobody ever set", kk))
 							}
 						}
 					case 1:
-						for _, v := range cache.Values() {
+						var vs []int
+						tr.do("Values", 0, func() { vs = cache.Values() })
+						for _, v := range vs {
 							if v != 0 {
 								if kk, _, _ := decode(v); !universe[kk] {
 									F("notset", "", fmt.Sprintf("Values() returned %#x, never set", v))
@@ -385,17 +398,22 @@ func runRound(c cfg, sample bool) {
 							}
 						}
 					case 2:
-						if l := cache.Len(); l < 0 {
+						var l int
+						tr.do("Len", 0, func() { l = cache.Len() })
+						if l < 0 {
 							F("view", "", fmt.Sprintf("Len()=%d", l))
 						}
 					case 3, 4:
-						cache.Contains(k)
+						tr.do("Contains", k, func() { cache.Contains(k) })
 					case 5:
-						if cp := cache.Capacity(); cp <= 0 {
+						var cp int
+						tr.do("Capacity", 0, func() { cp = cache.Capacity() })
+						if cp <= 0 {
 							F("view", "", fmt.Sprintf("Capacity()=%d", cp))
 						}
 					default:
-						v := cache.Get(k)
+						var v int
+						tr.do("Get", k, func() { v = cache.Get(k) })
 						if v != 0 {
 							if kk, _, _ := decode(v); kk != k {
 								F("notset", "", fmt.Sprintf("Get(%d) returned %#x, a value of key %d", k, v, kk))
@@ -414,13 +432,14 @@ func runRound(c cfg, sample bool) {
 	// sweepers
 	for s := 0; s < c.Sweepers; s++ {
 		wgAux.Add(1)
+		tr := newTracker(fmt.Sprintf("sweeper %d", s))
 		go func() {
 			defer wgAux.Done()
 			<-start
 			for i := 0; i < 5 || !done.Load(); i++ {
 				func() {
 					defer guard("Sweep")
-					cache.Sweep()
+					tr.do("Sweep", 0, func() { cache.Sweep() })
 					atomic.AddInt64(&nSweeps, 1)
 				}()
 				time.Sleep(20 * time.Microsecond)
@@ -432,21 +451,24 @@ func runRound(c cfg, sample bool) {
 		wgAux.Add(1)
 		isClear := x < c.Clearers
 		rr := rand.New(rand.NewSource(rng.Int63()))
+		tr := newTracker(fmt.Sprintf("clear/resize caller %d", x))
 		go func(x int, isClear bool, rr *rand.Rand) {
 			defer wgAux.Done()
 			<-start
-			caps := []int{c.Cap, c.Cap*4 + 1, c.Cap/3 + 4}
+			// a geometry change, the same capacity again (a Resize that has nothing to do), another change, and back
+			caps := []int{c.Cap, c.Cap*4 + 1, c.Cap*4 + 1, c.Cap/3 + 4}
 			for i := 0; i < 2 || !done.Load(); i++ {
 				time.Sleep(time.Duration(20+rr.Intn(300)) * time.Microsecond)
 				func() {
 					defer guard("Clear/Resize")
 					t0 := now()
 					if isClear {
-						cache.Clear()
+						tr.do("Clear", 0, func() { cache.Clear() })
 						atomic.AddInt64(&nClears, 1)
 						spans[x] = append(spans[x], span{"Clear", t0, now()})
 					} else {
-						cache.Resize(caps[(i+1)%len(caps)])
+						nc := caps[(i+1)%len(caps)]
+						tr.do("Resize", nc, func() { cache.Resize(nc) })
 						atomic.AddInt64(&nResizes, 1)
 						spans[x] = append(spans[x], span{"Resize", t0, now()})
 					}
@@ -464,16 +486,16 @@ func runRound(c cfg, sample bool) {
 	select {
 	case <-waitCh:
 	case <-time.After(120 * time.Second):
-		F("hang", "", "round did not finish within 120s; goroutines inside the library: "+storageFrames())
-		res.Scope = "aborted by the watchdog"
-		flush()
-		os.Exit(0)
+		// fallback: the stall watchdog (watchdog.go) normally fires long before this
+		reportDeadlock("round did not finish within 120s", nil)
 	}
 
 	// ----- quiescent checks -----
 	func() {
 		defer guard("quiescent views")
-		cache.Sweep()
+		trMain.do("Sweep (after all calls returned)", 0, func() { cache.Sweep() })
+		trMain.cur.Store(&opInfo{role: trMain.role, name: "quiescent views Keys/Get/Contains/Values/Len", since: time.Now()})
+		defer trMain.cur.Store(nil)
 		byKey := map[int][]opRec{}
 		nsets := map[seenKey]int{}
 		var nSet, nDel int64
@@ -685,7 +707,7 @@ func main() {
 	seed := flag.Int64("seed", 1, "")
 	tier := flag.String("tier", "quick", "")
 	out := flag.String("out", "", "")
-	family := flag.String("family", "A", "A (must be clean) or B (known findings expected)")
+	family := flag.String("family", "A", "A (must be clean), B (known findings expected) or S (scripted sequential-then-concurrent cases, must be clean)")
 	only := flag.String("only", "", "run only this scenario")
 	flag.Parse()
 	outDir = *out
@@ -713,7 +735,9 @@ func main() {
 	freq := func() int { return []int{50, 100, 200, 500, 1000}[rng.Intn(5)] }
 	caps := []int{4, 6, 9, 12, 16, 20, 25, 30, 36, 49, 64, 81, 100, 144}
 	var scope []string
-	if *family == "A" {
+	if *family == "S" {
+		scope = append(scope, familyS(rng, thorough, *only))
+	} else if *family == "A" {
 		// the refutation witness of Findings/CacheConc.v first: capacity 2 = one partition of 2, two writers, one new key each
 		n := scale(1500, 60000)
 		for i := 0; i < n; i++ {
